@@ -319,7 +319,19 @@ func DrawListValue(t *rapid.T, depth int, bad, badUTF8 bool) *model.Msg {
 	return valueDraw{t, badUTF8}.list(depth, bad)
 }
 
-var anyPrefixes = []string{"type.googleapis.com/", "type.googleapis.com/", "/", "example.com/a/b/", "x/", "type.googleprod.com/", "foo.bar-baz_1/", "a.b.c/d.e/"}
+var (
+	anyPrefixes = []string{"type.googleapis.com/", "type.googleapis.com/", "type.googleapis.com/", "/", "example.com/a/b/", "x/", "type.googleprod.com/", "foo.bar-baz_1/", "a.b.c/d.e/", "a%20b/", "~!$&()*+,;=/"}
+	// URLs outside the alphabet the text format can write between brackets (scheme, leading slash,
+	// blanks, non-ASCII, bad percent escapes, query / fragment / bracket / quote characters)
+	anyOddPrefixes = []string{"https://example.com/", "http://type.googleapis.com/", "/x/", "//", "a b/", "ü/", "a%zz/", "x?y=z/", "[x]/", "a#b/", "\"/", "a:b/", "@/"}
+)
+
+func drawAnyPrefix(t *rapid.T) string {
+	if rapid.IntRange(0, 5).Draw(t, "oddprefix") == 0 {
+		return rapid.SampledFrom(anyOddPrefixes).Draw(t, "prefix")
+	}
+	return rapid.SampledFrom(anyPrefixes).Draw(t, "prefix")
+}
 
 // DrawAny draws an Any. Good ones hold a registered type's encoding (canonical, or perturbed
 // with unknown fields); bad ones are unresolvable (unknown or empty name, empty URL with a
@@ -334,7 +346,7 @@ func DrawAny(t *rapid.T, o MsgOpts, w WKTOpts, bad bool) *model.Msg {
 		panic("gen.DrawAny: " + name + " is not registered")
 	}
 	md := mt.Descriptor()
-	url := rapid.SampledFrom(anyPrefixes).Draw(t, "prefix") + name
+	url := drawAnyPrefix(t) + name
 	eo := o
 	eo.Depth--
 	if eo.Depth < 0 {
